@@ -262,7 +262,13 @@ func (c *FnCtx) enterLoop(bc *blockCtx, li *loopInfo, rr *regionRun) {
 	c.restoreScript(save)
 	fr.callOcc = occSave
 	_ = before
-	// 4. havoc heap
+	// 4. havoc heap (after accounting for the objects allocated by earlier iterations, so that
+	// the havoced versions are typed against the new allocation mark)
+	if modAlloc {
+		na := c.sc.fresh("alloc", "Int")
+		c.sc.assert("(>= " + na + " " + bc.st.alloc + ")")
+		bc.st.alloc = na
+	}
 	for _, m := range mods {
 		srt := sorts[m.name]
 		if strings.HasPrefix(m.name, "LK:") {
@@ -309,11 +315,6 @@ func (c *FnCtx) enterLoop(bc *blockCtx, li *loopInfo, rr *regionRun) {
 				}
 			}
 		}
-	}
-	if modAlloc {
-		na := c.sc.fresh("alloc", "Int")
-		c.sc.assert("(>= " + na + " " + bc.st.alloc + ")")
-		bc.st.alloc = na
 	}
 	var gks []string
 	for k := range ghostMods {
